@@ -16,7 +16,7 @@ for d in sorted(glob.glob(os.path.join(HERE, "seeded", "C*-*"))):
         if os.path.exists(mp):
             rows.append(json.load(open(mp)))
         continue
-    prop = sid.split("-")[0].rstrip("b")
+    prop = re.match(r"C\d+", sid).group(0)
     am = json.load(open(os.path.join(d, "agent_meta.json")))
     cf = {}
     cpath = f"/tmp/confirm/{sid}.json"
